@@ -144,10 +144,12 @@ def length_preserving_toupper(prog):
     vid = rv['decl']['id']
     init = local_init(f, vid)
     if init is None:
-        return False, 'local has no initialiser'
+        return None, 'the result is built up from an empty string (not a copy that is transformed in place): its length is not read by the rule'
     k, p = root_of(f, init)
     if not (k == 'param' and p == ['#0']):
-        return False, 'local is not a copy of the argument'
+        if 'arg0' in Renderer(f).render(init):
+            return False, 'local is not a copy of the argument'      # built from a part of the argument
+        return None, 'the result is not a copy of the argument that is transformed in place: its length is not read by the rule'
     for n in f.calls():
         o = f.call_obj(n)
         if o is None:
@@ -155,7 +157,9 @@ def length_preserving_toupper(prog):
         on = f.nodes[f.strip(o, 'all')]
         if on['k'] == 'DeclRefExpr' and on['decl'].get('id') == vid and on['decl'].get('dk') == 'local':
             if not n['callee'].get('const') and n['callee']['name'] not in ('begin', 'end', 'operator[]', 'at'):
-                return False, 'calls %s on the copy' % n['callee']['name']
+                if n['callee']['name'] in ('reserve', 'shrink_to_fit'):
+                    continue
+                return (False if n['callee']['name'] in ('erase', 'resize', 'pop_back', 'clear', 'assign', 'replace', 'insert', 'append', 'push_back', 'operator+=') else None), 'calls %s on the copy' % n['callee']['name']
     for n in f.nodes:
         if (n['k'] == 'BinaryOperator' and n['op'] == '=') or n['k'] == 'CompoundAssignOperator' or (n['k'] == 'CXXOperatorCallExpr' and n.get('op') in ('=', '+=')):
             t = n['ch'][0] if n['k'] != 'CXXOperatorCallExpr' else n['args'][0]
@@ -174,6 +178,8 @@ def string_size_atom(f, s, R, toupper_ok):
         hops += 1
     if sn['k'] == 'CallExpr' and sn.get('callee', {}).get('qname') == 'ezc3d::toUpper' and toupper_ok:
         return R.render(sn['args'][0]) + '.size'
+    if sn['k'] == 'CallExpr' and sn.get('callee', {}).get('qname') == 'ezc3d::toUpper' and toupper_ok is None:
+        return '?toUpper:' + R.render(sn['args'][0]) + '.size'      # length of toUpper's result not read (neither shown equal nor shown different)
     return R.render(s) + '.size'
 
 
@@ -421,6 +427,8 @@ def _classify_write(prog, f, n, R, toupper_ok, ptr=None):
                     return 'ok', 'string', 'string resized by %s to %s characters, exactly that many written' % (hf.name, P.show(sp))
                 return 'violation', 'string', 'byte count %s is not the length %s the helper %s gives the string' % ('/'.join(P.show(w) for w in widths), P.show(sp), hf.name)
             return 'undecided', 'string', 'the string comes from %s, whose result length the rule cannot read' % so['callee'].get('qname')
+        if atom.startswith('?toUpper:'):
+            return 'undecided', 'string', 'the string comes from ezc3d::toUpper, whose result length the rule cannot read on this tree (it is no longer a copy transformed in place)'
         import codec_rules as _CRn
         for w in widths:
             wn = {tuple(_CRn.upper_len_norm(prog, a_) for a_ in mono): c_ for mono, c_ in w.items()} if isinstance(w, dict) else w
@@ -652,6 +660,16 @@ def run(prog, tier):
         for n in f.calls():
             c = n['callee']
             if c.get('inrepo') and c.get('const') and c['ret'].endswith('&') and not c['ret'].startswith('const ') and 'ezc3d::' in c['ret']:
+                # handed straight back as a reference to const: nothing can be modified through it
+                par_ = None
+                for a_ in f.ancestors(n['id']):
+                    if f.nodes[a_]['k'] not in ('ImplicitCastExpr', 'ParenExpr', 'ExprWithCleanups', 'MaterializeTemporaryExpr'):
+                        par_ = f.nodes[a_]
+                        break
+                if par_ is not None and par_['k'] == 'ReturnStmt' and str(f.rec.get('ret', '')).startswith('const '):
+                    res.ok('purity', 'const-bypass accessor %s returned as const' % c['qname'], f.loc(n['id']), 'the mutable reference is returned as %s' % f.rec.get('ret'), function=f.sig,
+                           expr='bypass-const:' + c['qname'], nontrivial=False)
+                    continue
                 res.viol('purity', 'const-bypass accessor %s' % c['qname'], f.loc(n['id']),
                          'save path obtains a mutable reference to object state through a const accessor', function=f.sig, expr='bypass:' + c['qname'])
     for q, c in sorted(prog.classes.items()):
